@@ -177,15 +177,15 @@ func (c *Ctx) Callees(fn *ssa.Function) []callEdge {
 			return
 		}
 		// dynamic call through a function value
+		if _, isParam := cc.Value.(*ssa.Parameter); isParam {
+			// the callee is whatever the callers passed: modelled (context-sensitively) by the
+			// closure-arg edges at the call sites that pass the function value.
+			return
+		}
 		if vtaOut != nil {
 			for _, f := range vtaOut[in] {
 				out = append(out, callEdge{Site: in, Callee: f, Kind: "dynamic"})
 			}
-			return
-		}
-		if _, isParam := cc.Value.(*ssa.Parameter); isParam {
-			// the callee is whatever the callers passed: modelled by the closure-arg / func-arg
-			// edges at the call sites that pass the function value.
 			return
 		}
 		sig, _ := cc.Value.Type().Underlying().(*types.Signature)
